@@ -285,7 +285,10 @@ def gen_cases(rng, tier):
                     break
             lines = []
             for _ in range(rng.int(2, 4)):
-                s = rng.choice([1.0, 1.0, -1.0, 2.0, 0.5, rng.loguniform(1e-6, 1e6), -rng.loguniform(1e-3, 1e3)])
+                # scale factors incl. ALMOST unit ones: |q|^2 within 1e-10 .. 1e-3 of 1 (seeded change c10c: "already normalised"
+                # shortcut when | |q|^2 - 1 | < 1e-6 — Eigen's toRotationMatrix assumes a unit quaternion)
+                near1 = 1.0 + rng.choice([-1.0, 1.0]) * 10.0 ** -rng.uniform(3.0, 10.0 if k == 'd' else 6.5)
+                s = rng.choice([1.0, 1.0, -1.0, 2.0, 0.5, rng.loguniform(1e-6, 1e6), -rng.loguniform(1e-3, 1e3), near1, near1, -near1])
                 lines.append('eul.fromQ ' + toks([c * s for c in q], k))
             lines += ['eul.toQ @', 'eul.fromQ @', 'eul.toR @']
             add('quat-' + k, lines, stream='quat')
